@@ -169,7 +169,9 @@ sys.exit(1 if bad else 0)
 def run(tier, seed):
     chk = Check('C15', tier, 'model_checking', seed)
     chk.encode(EquationSolver.CalculateInitialSteadyState, EquationSolver._GetCopy, EquationSolver.SolveStep, EquationSolver._SolveStep)
-    BUDGET[0] = 90 if tier == 'quick' else 1200
+    BUDGET[0] = 90 if tier == 'quick' else 600
+    from vf import selfcheck
+    selfcheck.run(chk)      # differential validation of the E2 value classes (trusted base) against plain floats
     cs = cases(tier)
     chk.bounds = {'cases': '%d: blocks %r x search horizon x tolerance {1e-4, 1e-2}' % (len(cs), sorted(BLOCKS)),
                   'numeric domain': 'k=0 values of every stock/lag and the (constant) exogenous input symbolic reals in [-2000, 2000], both signs',
